@@ -171,6 +171,14 @@ def c18_3(ctx):
         attr_expr = pre[0][len("truthy(%s.startswith(getattr(%s, " % (D, api)):]
         ctx.check(sym.entails(e.reach, ("op", pre[0])) and key_type in attr_expr and pub_prv in attr_expr and name_expr in ("'%%s_deserialize' %% %s" % key_type, "%s + '_deserialize'" % key_type),
                   "extended-key-prefix", ctx.where(h, e.node), "hparse does not select the prefix attribute (`%s`) and the deserializer (`%s`) of the same key type" % (attr_expr[:50], name_expr[:50]))
+    # a length test on the TEXT must let every text form of an extended key through: 82 bytes (78 + checksum) are 111 base58
+    # characters for the small version bytes of xprv/xpub/tprv and 112 for large ones (the DRKV / DRKP families)
+    wt = sym.int_walk(ctx, h, {"len(%s)" % s_})
+    des_t = [e for e in wt.effects if e.kind == "call" and isinstance(e.call.func, ast.Call) and norm(e.call.func.func) == "getattr" and norm(e.call.func.args[0]) == "%s._network.keys" % api]
+    for e in des_t:
+        st = sym.may_set(e.reach, gi.IntSet.all(), gi.IntSet.empty())
+        ctx.check(gi.iv(111, 112).issubset(st), "text-length-free", ctx.where(h, e.node), "hparse reaches the deserializer only for texts of length %s: an extended key is 111 or 112 base58 characters depending on its version bytes" % st.fmt(),
+                  sample={"subject": "len(%s)" % s_, "accepted": st.fmt()})
     from rules import C10, C08
     C10.c10_3(ctx)
     C08.c08_2(ctx)
